@@ -1,9 +1,13 @@
-(* The name reference transformer WITH the proposed repair /tmp/fixes/S-nameref-shared-field.patch
-   (nameref.ResolvedFields): the filters applied to one referrer share a set of reference fields that
-   have been resolved to a referral; a field in the set is left alone by the filters of the other kinds.
-   Go keys the set by *yaml.Node pointer; here a field is identified by its concrete address in the
-   referrer's document, which the traversal threads together with the set.  Definitions only.
-   The unrepaired transformer is Res/NameRef.v; everything not mentioned here is shared with it. *)
+(* SPECIFICATION, not the model of /repo: the name reference transformer in which the filters applied to one
+   referrer share a set of reference fields that have been resolved to a referral; a field in the set is left
+   alone by the filters of the other kinds.  This is what the current code (Res/NameRef.v, the faithful model)
+   is refuted against in the rewrite-cascade findings: on their witnesses this transformer keeps the field at
+   the referent's name (C03Facts.cascade_repaired_*), and it agrees with Res/NameRef.v on inputs without a
+   shared field hit (resolved_agrees_closed).  A repair of this shape (/tmp/fixes/S-nameref-shared-field.patch,
+   nameref.ResolvedFields + Filter.Resolved) was proposed and DECLINED in fix wave 4 (new exported type and
+   Filter field: a design decision for the maintainers), so the cascade classes stay findings.
+   A field is identified by its concrete address in the referrer's document, which the traversal threads
+   together with the set.  Definitions only.  Everything not mentioned here is shared with Res/NameRef.v. *)
 From KV Require Export Res.NameRef Res.Addr.
 
 Definition addr := list astep.
